@@ -8,6 +8,7 @@ import (
 	"fmt"
 	"os"
 	"path/filepath"
+	"regexp"
 	"runtime"
 	"runtime/debug"
 	"sort"
@@ -85,7 +86,64 @@ func tapeFromJSON(in [][3]int64) []simrt.Rec {
 }
 
 // Summary is the per-worker aggregate written at the end of a batch.
+// Known is one entry of /verif/known_findings.json.
+type Known struct {
+	Property  string `json:"property"`
+	Status    string `json:"status"`
+	Signature struct {
+		Oracle  string `json:"oracle"`
+		Site    string `json:"site"`
+		Pattern string `json:"pattern"`
+	} `json:"signature"`
+	What string `json:"what"`
+	re   *regexp.Regexp
+}
+
+func loadKnown(prop string) []*Known {
+	path := os.Getenv("VERIF_KNOWN")
+	if path == "" {
+		return nil
+	}
+	b, err := os.ReadFile(path)
+	if err != nil {
+		return nil
+	}
+	var all []*Known
+	if err := json.Unmarshal(b, &all); err != nil {
+		fmt.Fprintln(os.Stderr, "worker: bad known findings file:", err)
+		os.Exit(2)
+	}
+	var out []*Known
+	for _, k := range all {
+		if k.Status == "known" && k.Property == prop {
+			if k.Signature.Pattern != "" {
+				k.re = regexp.MustCompile(k.Signature.Pattern)
+			}
+			out = append(out, k)
+		}
+	}
+	return out
+}
+
+func matchKnown(ks []*Known, v *simrt.Verdict, pattern string) *Known {
+	for _, k := range ks {
+		if k.Signature.Oracle != "" && k.Signature.Oracle != v.Oracle {
+			continue
+		}
+		if k.Signature.Site != "" && k.Signature.Site != v.Site {
+			continue
+		}
+		if k.re != nil && !k.re.MatchString(pattern+"\n"+v.Detail) {
+			continue
+		}
+		return k
+	}
+	return nil
+}
+
 type Summary struct {
+	KnownHits   map[string]int `json:"known_hits"`
+	KnownFiles  []string       `json:"known_files"`
 	Worker      int            `json:"worker"`
 	Runs        int            `json:"runs"`
 	NonTrivial  int            `json:"nontrivial"`
@@ -186,7 +244,8 @@ func batch(t *testing.T, e Engine) {
 		os.Exit(2)
 	}
 	defer journal.Close()
-	sum := &Summary{Worker: widx, Probes: map[string]int{}, Faults: map[string]int{}}
+	sum := &Summary{Worker: widx, Probes: map[string]int{}, Faults: map[string]int{}, KnownHits: map[string]int{}}
+	known := loadKnown(opt.Property)
 	keys := map[uint64]struct{}{}
 	skeys := map[uint64]struct{}{}
 	seenViol := map[string]bool{}
@@ -240,7 +299,11 @@ func batch(t *testing.T, e Engine) {
 				fmt.Fprintf(os.Stderr, "worker: infrastructure failure seed=%d: %s\n", seed, oc.Verdict)
 				os.Exit(2)
 			}
-			if !seenViol[sig] {
+			kn := matchKnown(known, oc.Verdict, oc.Pattern)
+			if kn != nil {
+				sum.KnownHits[kn.What]++
+			}
+			if !seenViol[sig] && (kn == nil || sum.KnownHits[kn.What] == 1) {
 				seenViol[sig] = true
 				rp := &Replay{
 					Property: opt.Property, Engine: e.Name(), Format: 1, Seed: seed, Params: opt.Params,
@@ -256,10 +319,16 @@ func batch(t *testing.T, e Engine) {
 					rp.Steps = oc.Res.Steps
 				}
 				path := filepath.Join(out, fmt.Sprintf("viol-%d-%d.json", widx, len(sum.Violations)))
-				writeJSON(path, rp)
-				sum.Violations = append(sum.Violations, path)
-				if len(sum.Violations) >= maxViol {
-					break
+				if kn != nil {
+					path = filepath.Join(out, fmt.Sprintf("known-%d-%d.json", widx, len(sum.KnownFiles)))
+					writeJSON(path, rp)
+					sum.KnownFiles = append(sum.KnownFiles, path)
+				} else {
+					writeJSON(path, rp)
+					sum.Violations = append(sum.Violations, path)
+					if len(sum.Violations) >= maxViol {
+						break
+					}
 				}
 			}
 		}
